@@ -17,6 +17,9 @@ type TypeConverter struct {
 	// qualifiers are the package identifiers TypeToExpr created itself: they already carry the
 	// name of the import they refer to and must not be looked up in a source file's imports.
 	qualifiers map[*ast.Ident]struct{}
+	// packageNames holds the declared name of imported packages (import path -> package name)
+	// as far as it is known; it need not be the last element of the path.
+	packageNames map[string]string
 }
 
 // NewTypeConverter creates a new TypeConverter for the given package.
@@ -27,6 +30,7 @@ func NewTypeConverter(currentPkg *types.Package) *TypeConverter {
 		usedNames:    make(map[string]string),
 		nameCounters: make(map[string]int),
 		qualifiers:   make(map[*ast.Ident]struct{}),
+		packageNames: make(map[string]string),
 	}
 }
 
@@ -45,13 +49,22 @@ func (tc *TypeConverter) Imports() []ImportSpec {
 		spec := ImportSpec{Path: path}
 		// Only set name (alias) if it differs from the last element of the path.
 		// This avoids redundant aliases like: v1 "github.com/.../v1"
+		// The alias is not redundant when the package is known to declare another name.
 		pkgName := lastPathElement(path)
+		if declared, ok := tc.packageNames[path]; ok && declared != name {
+			pkgName = declared
+		}
 		if name != pkgName {
 			spec.Name = name
 		}
 		specs = append(specs, spec)
 	}
 	return specs
+}
+
+// SetPackageName records the name a package declares for itself.
+func (tc *TypeConverter) SetPackageName(path, name string) {
+	tc.packageNames[path] = name
 }
 
 // AddImport adds an import to the collected imports, handling name collisions.
